@@ -564,6 +564,28 @@ def f_required_with_default(d):
     use(d, "tuning", "Tuning")
 
 
+def _sink(d, n: int) -> None:
+    """ONE tag whose endpoints module needs more and more names from its imports: the first n of a fixed list of operation kinds."""
+    kinds = [
+        ("/sink/items", "get", {"parameters": [{"name": "limit", "in": "query", "schema": {"type": "integer"}}], "responses": {"200": jresp({"type": "array", "items": ref("Pet")})}}),
+        ("/sink/upload", "post", {"requestBody": {"required": True, "content": {"application/json": {"schema": ref("Pet")}, "multipart/form-data": {"schema": obj({"file": {"type": "string", "format": "binary"}})}}}, "responses": {"201": jresp(ref("Pet"))}}),
+        ("/sink/events", "get", {"responses": {"200": {"description": "ok", "content": {"text/event-stream": {"schema": ref("Pet")}}}}}),
+        ("/sink/blob", "get", {"responses": {"200": {"description": "ok", "content": {"application/octet-stream": {"schema": {"type": "string", "format": "binary"}}}}}}),
+        ("/sink/either", "get", {"responses": {"200": jresp({"oneOf": [ref("Pet"), {"type": "string"}]})}}),
+        ("/sink/map", "get", {"parameters": [{"name": "X-Opt", "in": "header", "schema": {"type": "string"}}], "responses": {"200": jresp({"type": "object", "additionalProperties": {"type": "integer"}}), "404": {"description": "nf"}, "409": {"description": "c"}}}),
+        ("/sink/when", "get", {"parameters": [{"name": "since", "in": "query", "schema": {"type": "string", "format": "date-time"}}, {"name": "id", "in": "query", "schema": {"type": "string", "format": "uuid"}}], "responses": {"204": {"description": "none"}, "500": {"description": "e"}}}),
+    ]
+    for i, (path, method, body) in enumerate(kinds[:n]):
+        op(d, path, method, {"operationId": f"sink_{i}", "tags": ["sink"], **body})
+
+
+def f_sink3(d): _sink(d, 3)
+def f_sink4(d): _sink(d, 4)
+def f_sink5(d): _sink(d, 5)
+def f_sink6(d): _sink(d, 6)
+def f_sink7(d): _sink(d, 7)
+
+
 def f_shared_param_inline(d):
     """A component parameter with an INLINE (promoted) schema referenced from operations on different paths, plus
     path-level parameters declared AFTER the methods of their path item."""
